@@ -206,8 +206,13 @@ fn op_render(payload: &str) -> String {
             invalid += 1;
         }
     }
+    let mut hash: u64 = 0xcbf29ce484222325;
+    for b in pm.data() {
+        hash = (hash ^ *b as u64).wrapping_mul(0x100000001b3);
+    }
     format!(
-        "{{\"ok\":true,\"ms\":{},\"largest\":{},\"peak\":{},\"total\":{},\"nonblank\":{},\"invalid\":{},\"layers\":{},\"nodes\":{}}}",
+        "{{\"ok\":true,\"hash\":\"{:016x}\",\"ms\":{},\"largest\":{},\"peak\":{},\"total\":{},\"nonblank\":{},\"invalid\":{},\"layers\":{},\"nodes\":{}}}",
+        hash,
         ms,
         LARGEST.load(Ordering::SeqCst),
         PEAK.load(Ordering::SeqCst).max(0),
@@ -265,6 +270,7 @@ fn op_classify(payload: &str) -> String {
         turb_freq: f64,
         huge_param: f64,
         filter_alloc_px: f64,
+        image_px: f64,
     }
     fn paint_tile(p: &usvg::Paint, ts: tiny_skia::Transform, acc: &mut Acc) {
         if let usvg::Paint::Pattern(ref pat) = p {
@@ -379,6 +385,12 @@ fn op_classify(payload: &str) -> String {
                 usvg::Node::Image(ref i) => {
                     if let usvg::ImageKind::SVG(ref sub) = i.kind() {
                         walk(sub.root(), ts, w, h, acc);
+                    } else {
+                        // the pixel size the raster image declares in its header (what the decoder allocates)
+                        let a = i.size().width() as f64 * i.size().height() as f64;
+                        if a > acc.image_px {
+                            acc.image_px = a;
+                        }
                     }
                 }
             }
@@ -394,8 +406,8 @@ fn op_classify(payload: &str) -> String {
     walk(tree.root(), ts, w, h, &mut acc);
     let fin = |x: f64| if x.is_finite() { x } else { 1e300 };
     format!(
-        "{{\"filters\":{},\"filter_px\":{:e},\"filter_outside\":{},\"patterns\":{},\"tile_px\":{:e},\"morph_cost\":{:e},\"octaves\":{},\"turb_freq\":{:e},\"huge_param\":{:e},\"filter_alloc_px\":{:e}}}",
-        acc.filters, fin(acc.filter_px), acc.filter_outside, acc.patterns, fin(acc.tile_px), fin(acc.morph_cost), acc.octaves, fin(acc.turb_freq), fin(acc.huge_param), fin(acc.filter_alloc_px)
+        "{{\"filters\":{},\"filter_px\":{:e},\"filter_outside\":{},\"patterns\":{},\"tile_px\":{:e},\"morph_cost\":{:e},\"octaves\":{},\"turb_freq\":{:e},\"huge_param\":{:e},\"filter_alloc_px\":{:e},\"image_px\":{:e}}}",
+        acc.filters, fin(acc.filter_px), acc.filter_outside, acc.patterns, fin(acc.tile_px), fin(acc.morph_cost), acc.octaves, fin(acc.turb_freq), fin(acc.huge_param), fin(acc.filter_alloc_px), fin(acc.image_px)
     )
 }
 
